@@ -399,6 +399,35 @@ func vC19Choices(minDep int64) []vC19Choice {
 	return cs
 }
 
+func vC19NameArrangements() []vC19Choice {
+	alphabet := []string{"west", "east", "north"}
+	var out []vC19Choice
+	var rec func(names []string, n int)
+	rec = func(names []string, n int) {
+		if len(names) == n {
+			ns := append([]string(nil), names...)
+			out = append(out, vC19Choice{"names=" + strings.Join(ns, ","), func(m *dtypes.MsgCreateDeployment) {
+				g0 := m.Groups[0]
+				m.Groups = nil
+				for i, nm := range ns {
+					g := g0
+					g.Name = nm
+					g.Resources = []dtypes.Resource{{Resources: vUnits(uint64(100+i), 64, 64), Count: 1, Price: vCoin(int64(10 + i))}}
+					m.Groups = append(m.Groups, g)
+				}
+			}})
+			return
+		}
+		for _, a := range alphabet {
+			rec(append(names, a), n)
+		}
+	}
+	for n := 2; n <= 4; n++ {
+		rec(nil, n)
+	}
+	return out
+}
+
 func vC19Sweep(t *testing.T, res *vs.Result) {
 	choices := vC19Choices(vProfileDefault.DepMinDeposit)
 	type job struct{ a, b int }
@@ -411,7 +440,16 @@ func vC19Sweep(t *testing.T, res *vs.Result) {
 			jobs = append(jobs, job{i, j})
 		}
 	}
-	res.Extra("boundary_sweep", fmt.Sprintf("%d single boundary choices and all %d unordered pairs applied to one valid base message, each through ValidateBasic and a signed DeliverTx", len(choices), len(jobs)-len(choices)))
+	// group-name arrangements (singles only): every sequence of 2..4 names over
+	// {west, east, north}, i.e. duplicates adjacent, apart, in ascending,
+	// descending and mixed order (complete: 9 + 27 + 81)
+	nPairs := len(jobs) - len(choices)
+	for _, c := range vC19NameArrangements() {
+		choices = append(choices, c)
+		jobs = append(jobs, job{len(choices) - 1, -1})
+	}
+	res.Extra("group_name_arrangements", "all 117 sequences of 2..4 group names over a 3-name alphabet")
+	res.Extra("boundary_sweep", fmt.Sprintf("%d single boundary choices and all %d unordered pairs applied to one valid base message, each through ValidateBasic and a signed DeliverTx", len(choices)-117, nPairs))
 	shards := 16
 	seed := vs.Seed()
 	vs.Parallel(shards, shards, func(s int) {
@@ -473,7 +511,7 @@ func vC19Sweep(t *testing.T, res *vs.Result) {
 
 func TestVerif_C19(t *testing.T) {
 	res := vs.NewResult("C19", "exploration",
-		"(a) boundary sweep: every single choice {min-1,min,max,max+1} of each per-unit bound, group totals at max-1/max/max+1 reached with counts 1/2/50, 0/1/20/21 units, 0/1/20/21/40 groups, duplicate/empty names, nil and >2^64 and negative resource values, price and deposit variations, version lengths, and all unordered pairs of two choices, each as a signed create-deployment through ValidateBasic and DeliverTx; alarm when admitted although the big-integer limits table says no, or when a rejection leaves any effect; (b) after every tx of random full-application histories every stored deployment/group must satisfy the table. distinct = (admitted?, set of violated limits)")
+		"(a) boundary sweep: every single choice {min-1,min,max,max+1} of each per-unit bound, group totals at max-1/max/max+1 reached with counts 1/2/50, 0/1/20/21 units, 0/1/20/21/40 groups, duplicate/empty names, all 117 arrangements of 2..4 group names over a 3-name alphabet, nil and >2^64 and negative resource values, price and deposit variations, version lengths, and all unordered pairs of two choices, each as a signed create-deployment through ValidateBasic and DeliverTx; alarm when admitted although the big-integer limits table says no, or when a rejection leaves any effect; (b) after every tx of random full-application histories every stored deployment/group must satisfy the table. distinct = (admitted?, set of violated limits)")
 	res.Assume("limits transcribed from the documented constants (cpu 10..10000 milli, memory 1Mi..16Gi, storage 5Mi..1Ti, count 1..50, unit price 1..10^7 uakt, <=20 units/group, <=20 groups, totals cpu<=20000, memory<=32Gi, storage<=1Ti, 32-byte version, deposit >= DeploymentMinDeposit)")
 	for _, f := range []string{"admitted", "rejected_beyond_limits", "stored_groups_checked", "stored_deployments_checked", "rejected:unit-cpu", "rejected:unit-memory", "rejected:unit-storage", "rejected:unit-count", "rejected:unit-price", "rejected:price-denom",
 		"rejected:group-total-cpu", "rejected:group-total-memory", "rejected:group-total-storage", "rejected:units>max", "rejected:groups>max", "rejected:groups<1", "rejected:group-name-duplicate", "rejected:group-name-empty", "rejected:version-length", "rejected:deposit"} {
